@@ -138,6 +138,8 @@ pub fn dense_opts(which: Which) -> Opts {
     o.multibyte_pct = 35;
     o.unwrap_pct = 55;
     o.max_top = 3;
+    // neighbours / children whose tag stands on a block's own tag line (`<a> <b>` … `</b> </a>`)
+    o.join_pct = 12;
     o
 }
 
@@ -183,7 +185,7 @@ fn neutralize(doc: &mut Doc, sp: &Spell, cfg: &ACfg, t: &mut Tape) {
         fn walk(ns: &mut [Node], id: usize, mode: usize) {
             for n in ns {
                 match n {
-                    Node::Line(_) => {}
+                    Node::Line(_) | Node::Join(_) => {}
                     Node::Inline { elem, .. } => {
                         if elem.id == id {
                             fix(elem, mode)
